@@ -2,8 +2,8 @@
 ; sig imin : Int Int -> Int
 ; sig imax : Int Int -> Int
 ; sig rb_buffered : Int Int Int Bool -> Int
-; sig rb_at$ : ByteMem Slice Int Int Int -> BV8
+; sig rb_at$ : ByteArr Slice Int Int Int -> BV8
 (define-fun rb_buffered ((size Int) (r Int) (w Int) (e Bool)) Int
   (ite (= r w) (ite e 0 size) (ite (> w r) (- w r) (+ (- size r) w))))
-(define-fun rb_at$ ((m ByteMem) (b Slice) (size Int) (r Int) (k Int)) (_ BitVec 8)
+(define-fun rb_at$ ((m ByteArr) (b Slice) (size Int) (r Int) (k Int)) (_ BitVec 8)
   (el8 m b (go_mod (+ r k) size)))
